@@ -60,7 +60,9 @@ def write_cfg(name, consts, invariants, module='Restrict'):
 
 
 def tlc_job(tag, consts, invariants, workers=WORKERS, module='Restrict'):
-    """Start-to-finish TLC run (thread-safe: own cfg, own metadir)."""
+    """Start-to-finish TLC run (own cfg, own metadir: safe with threads and
+    with another ./check C05 running at the same time)."""
+    tag = f'{tag}_{os.getpid()}'
     cfg = write_cfg(f'_{tag}.cfg', consts, invariants, module)
     try:
         return tlc.run(SPEC, module, cfg, tag, timeout=1800,
